@@ -249,8 +249,10 @@ type Explorer struct {
 	MaxDepth  int
 	NoDedup   bool
 	Deadline  time.Time
-	// Shard selection over first-level ops.
+	// Shard selection over the ops at depth ShardDepth (default 0: first-level ops); the levels above
+	// are run by every shard.
 	Shard, NShards int
+	ShardDepth     int
 	// ExpandFailed: also expand below transitions whose outcome is not "ok" (default false: a failed
 	// op must leave the digest unchanged, which is asserted, so there is nothing new below it).
 	ExpandFailed bool
@@ -320,7 +322,7 @@ func (e *Explorer) visit(depth int, path []string, cur string) {
 			if op.Name != ReplayPath[depth] {
 				continue
 			}
-		} else if depth == 0 && i%e.NShards != e.Shard {
+		} else if depth == e.ShardDepth && i%e.NShards != e.Shard {
 			continue
 		}
 		if !e.Deadline.IsZero() && time.Now().After(e.Deadline) {
